@@ -242,7 +242,7 @@ func Hash(parts ...any) string {
 // stopped from outside). It must be started outside any synctest bubble.
 type Watchdog struct {
 	mu    sync.Mutex
-	last  time.Time
+	gen   int64 // bumped by Case; the oracle goroutine notes the REAL time at which it sees a new value
 	class string
 	desc  string
 	off   bool
@@ -258,13 +258,20 @@ func (r *Report) StartWatchdog(e Env, limit time.Duration) *Watchdog {
 			}
 		}
 	}
-	w := &Watchdog{last: time.Now()}
+	w := &Watchdog{}
 	go func() {
+		// Case may be called from inside a bubble of virtual time, where time.Now() is
+		// not the real clock: only this goroutine (outside any bubble) reads the clock.
+		seen, since := int64(-1), time.Now()
 		for {
 			time.Sleep(limit / 20)
 			w.mu.Lock()
-			idle, class, desc, off := time.Since(w.last), w.class, w.desc, w.off
+			gen, class, desc, off := w.gen, w.class, w.desc, w.off
 			w.mu.Unlock()
+			if gen != seen {
+				seen, since = gen, time.Now()
+			}
+			idle := time.Since(since)
 			if off {
 				return
 			}
@@ -283,7 +290,8 @@ func (r *Report) StartWatchdog(e Env, limit time.Duration) *Watchdog {
 // Case marks the start of a case (class = stable violation key part, desc = replay description).
 func (w *Watchdog) Case(class, desc string) {
 	w.mu.Lock()
-	w.last, w.class, w.desc = time.Now(), class, desc
+	w.gen++
+	w.class, w.desc = class, desc
 	w.mu.Unlock()
 }
 
